@@ -182,5 +182,5 @@ def cases(draw):
 
 
 CLAUSES = [
-    Clause('roundtrip', check_case, kind='random', strategy=cases, budget={'quick': 6000, 'thorough': 50000}),
+    Clause('roundtrip', check_case, kind='random', strategy=cases, budget={'quick': 6000, 'thorough': 150000}),
 ]
